@@ -71,7 +71,10 @@ def run(spec_dir, module, cfg, tag, workers=16, timeout=600, simulate=None,
     """Run TLC on spec_dir/module.tla with spec_dir/cfg."""
     res = TLCResult()
     meta = workdir(tag)
-    cmd = ['java', '-XX:+UseParallelGC', f'-Xmx{java_heap}']
+    # (TLC makes an empty tlc-<n> directory under java.io.tmpdir per run:
+    # keep that inside the run's own scratch directory, not in /tmp)
+    cmd = ['java', '-XX:+UseParallelGC', f'-Xmx{java_heap}',
+           f'-Djava.io.tmpdir={meta}']
     if dfs:
         cmd.append('-Dtlc2.tool.queue.IStateQueue=StateDeque')
     cmd += ['-cp', f'{JAR}:{DEPS}', 'tlc2.TLC', '-workers', str(workers),
